@@ -21,7 +21,8 @@ PROP = dict(
           "signer and a reference signer with a drawn nonce) and ~40 mutation/forgery classes per scheme; a case is non-trivial "
           "when the candidate is not an honest triple, or the message is empty / multi-block / longer than the hash block, or the "
           "key went through its byte encoding; recovery cases: RecoverFrom compared with SEC 1 4.1.6 on the reference curve; "
-          "HashToInt cases: compared with FIPS 186-4 bits2int; distinct = distinct (instance, hash, key, signature, message) hashes"),
+          "HashToInt cases: compared with FIPS 186-4 bits2int; volume cases: honest (key, counter message) pairs verified "
+          "under the deserialised public key; aliasing cases: scribble histories on keys/signatures; distinct = distinct (instance, hash, key, signature, message) hashes"),
     assumptions=[
         "reference = harness/internal/ref (ref.Curve / ref.Edwards / ref.MiMC over math/big, no gnark-crypto code); SHA-2 from the Go standard library",
         "all keys come from rapid-drawn seeds through a deterministic io.Reader, or from SetBytes of generated encodings; the ECDSA signer draws its "
@@ -34,6 +35,11 @@ PROP = dict(
         "EdDSA: documented extra strictness is mirrored (R.y = 0 and S = 0 are refused by Signature.SetBytes)",
         "MiMC messages: empty, shorter than a block (documented left padding) or whole blocks; blocks >= q must give an error; other lengths are not generated (C14, F9)",
         "ecc/bls12-381/bandersnatch/eddsa imports (and documents) the curve of ecc/bls12-381/twistededwards; it is checked against that curve",
+        "volume job: the EdDSA reference signer uses the documented nonce blake2b-512(randSrc || M)[:size] and compares S byte for byte on every "
+        "message, R = [r]B and the full equation on a subsample and on every signature with >= 2 leading zero bytes; ECDSA signing mixes "
+        "crypto/rand entropy, so there only the verdict (and the reference equation on a subsample) is used",
+        "aliasing clause: SHA-256 only; after every scribble step the source key must serialise identically, and at the end sign for its original "
+        "public key (library Verify and reference equation) and agree with a copy reloaded from the saved bytes",
         "public-key recovery exists only in the secp256k1, bn254 and stark-curve packages",
     ],
     jobs=[
@@ -43,6 +49,18 @@ PROP = dict(
         dict(name="eddsa_rest", pkg="c12", run="^TestC12_EdDSA$", shards=_sh("eddsa", EDDSA_REST), checks=(14, 250)),
         dict(name="recover", pkg="c12", run="^TestC12_Recover$", shards=_sh("ecdsa", RECOVER), checks=(50, 800)),
         dict(name="hashtoint", pkg="c12", run="^TestC12_HashToInt$", checks=(400, 8000)),
+        # high-volume honest signing (rapid-free, fixed key per VERIF_SEED, counter messages, SHA-256): N per instance is
+        # max(base, 6/p), p = P(a component has >= 2 leading zero bytes); split over VERIF_SHARD processes
+        dict(name="vol_eddsa", pkg="c12", run="^TestC12_HonestVolume_EdDSA$", rapid=False, shards=_sh("eddsa", EDDSA_ALL), seeds=(2, 8),
+             timeout=(900, 3600)),
+        dict(name="vol_ecdsa_wide", pkg="c12", run="^TestC12_HonestVolume_ECDSA$", rapid=False,
+             shards=_sh("ecdsa", ["secp256k1", "bls12-381", "bls24-317"]), seeds=(8, 16), timeout=(900, 3600)),
+        dict(name="vol_ecdsa_mid", pkg="c12", run="^TestC12_HonestVolume_ECDSA$", rapid=False,
+             shards=_sh("ecdsa", ["bn254", "grumpkin", "bls12-377", "bls24-315"]), seeds=(3, 8), timeout=(900, 3600)),
+        dict(name="vol_ecdsa", pkg="c12", run="^TestC12_HonestVolume_ECDSA$", rapid=False,
+             shards=_sh("ecdsa", ["stark-curve", "bw6-633", "bw6-761"]), seeds=(1, 4), timeout=(900, 3600)),
+        dict(name="alias_ecdsa", pkg="c12", run="^TestC12_Alias_ECDSA$", checks=(25, 400)),
+        dict(name="alias_eddsa", pkg="c12", run="^TestC12_Alias_EdDSA$", checks=(25, 400)),
         dict(name="regress", pkg="c12", run="^TestC12_(Regress.*|Probe.*|Anchor.*|Dispatch)$", rapid=False),
     ],
     mandatory_all=[
@@ -58,6 +76,9 @@ PROP = dict(
         "sig_bitflip_R", "sig_bitflip_S", "S_zero", "S_eq_l", "S_l_plus_1", "S_plus_l", "R_offcurve", "R_noncanonical_y",
         "R_small_order", "R_plus_torsion_resigned", "R_signbit_x0", "pk_noncanonical_y", "pk_small_order", "pk_plus_torsion",
         "leading_zero_bit",
+        # volume and aliasing
+        "volume_honest_eddsa", "volume_honest_ecdsa", "sig:leading_zero_bytes>=1", "sig:leading_zero_bytes>=2", "S:leading_zero_bytes>=2",
+        "alias:public_of_private", "alias:public_of_private_invalid", "alias:bytes_slice", "alias:setbytes_input", "alias:public_of_loaded",
     ],
 )
 
